@@ -16,7 +16,7 @@ from egverif import graphs, oracles, trav, zoo
 
 RULE = (
     "cases = (graph spec with a universe, option table); 5 option tables (the default with $id titles, per-subclass "
-    "overrides of type/title_format/arrow ends, a table configuring only the grandparent classes, a table with a "
+    "overrides of type/title_format (incl. format specifications, indexing and conversions) / arrow ends, a table configuring only the grandparent classes, a table with a "
     "user_render_func, a table that also configures other two-ended links) x shape families and random multigraphs "
     "with self-loops, parallel/antiparallel/mixed edges, isolated members, links leaving the universe, zoo subclasses. "
     "The text is parsed back: declaration headers and relation lines are compared as multisets with what the graph "
@@ -76,11 +76,19 @@ def tables():
         DirectedEdge: {"v1side": "", "v2side": ">"},
         UnDirectedEdge: {"v1side": "", "v2side": ""},
     }
-    return {"default": t0, "overrides": t1, "grandparents": t2, "userfunc": t3, "otherlinks": t4, "multi": t5, "idattr": t6}
+    t7 = {
+        # format specifications, indexing and conversions: the title is built from the attribute VALUES
+        Vertex: {"type": "object", "show_attrs": ["idx", "pos", "w"], "title_format": "n{idx:03}h{idx:x}p{pos[0]}w{w:.1f}"},
+        zoo.VSub: {"type": "class", "show_attrs": ["idx", "pos"], "title_format": "s{idx:>02}q{pos[1]!r:.2}"},
+        DirectedEdge: {"v1side": "", "v2side": ">"},
+        UnDirectedEdge: {"v1side": "", "v2side": ""},
+    }
+    return {"default": t0, "overrides": t1, "grandparents": t2, "userfunc": t3, "otherlinks": t4, "multi": t5, "idattr": t6,
+            "fmtspec": t7}
 
 
 TABLE_ALLOWS_OTHER = {"default": False, "overrides": False, "grandparents": True, "userfunc": False, "otherlinks": True,
-                      "multi": False, "incremental": False, "idattr": False}
+                      "multi": False, "incremental": False, "idattr": False, "fmtspec": False}
 
 
 def nearest(cls, table):
@@ -96,7 +104,8 @@ def title(v, table):
         return f"U{v.idx}"
     if o["title_format"] == "$id":
         return hex(id(v))
-    return o["title_format"].format(idx=v.idx, uid=v.uid, id=getattr(v, "id", None), type=getattr(v, "type", None))
+    return o["title_format"].format(idx=v.idx, uid=v.uid, id=getattr(v, "id", None), type=getattr(v, "type", None),
+                                    pos=getattr(v, "pos", None), w=getattr(v, "w", None))
 
 
 def floors(ctx):
@@ -105,7 +114,7 @@ def floors(ctx):
             "graphs_with_selfloop": 50, "graphs_with_parallel": 50, "graphs_with_mixed_kinds": 50,
             "links_leaving_universe": 50, "empty_universe": 3, "isolated_members": 100,
             "subclass_resolved_via_ancestor": 100, "multiple_inheritance_members": 50,
-            "renders_after_table_was_extended": 100}
+            "renders_after_table_was_extended": 100, "renders_with_format_specs_in_title": 100}
 
 
 INCREMENTAL_ADDS = {
@@ -120,6 +129,9 @@ INCREMENTAL_ADDS = {
 def run_case(ctx, spec, tname):
     if tname == "idattr":
         spec = dict(spec, attrs={str(i): {"id": 100 + i, "type": "T"} for i in range(len(spec["verts"]))})
+    if tname == "fmtspec":
+        spec = dict(spec, attrs={str(i): {"pos": [i * 2, "pq"], "w": i * 0.5} for i in range(len(spec["verts"]))})
+        ctx.count("renders_with_format_specs_in_title")
     g = graphs.build(spec)
     if tname == "incremental":
         # the user renders with a small table, then configures intermediate classes in the same table object and
